@@ -173,6 +173,13 @@ def _c02_job(job):
                 hi = tg.maxTimestamp
             elif r < 0.35:
                 hi = tg.maxTimestamp + 1.5
+            elif r < 0.5:
+                # an override that SHRINKS the span while still enclosing every entry (midway between the last entry's end
+                # and the textgrid's end; far more than the sliver threshold away from both)
+                ends = [e[-2] for t in tg.tiers for e in t.entries]
+                last = max(ends) if ends else tg.minTimestamp
+                if tg.maxTimestamp - last > 1e-3:
+                    hi = (last + tg.maxTimestamp) / 2.0
             variants = [(blanks, lo, hi)]
             feats = {"src": "rand", "seed": seed}
         for blanks, lo, hi in variants:
